@@ -12,4 +12,5 @@ def check(ctx, rep):
     cache.cache_6_7(ctx, rep)
     cache.cache_8(ctx, rep)      # no memory-mapped cache file: truncation by a concurrent writer would be SIGBUS, not an exception
     cache.cache_9_10(ctx, rep)   # entries are pickled verbatim; the save does not depend on the cache file that is already there
+    cache.cache_12(ctx, rep)     # no module-level state besides parser_cache (nothing remembered about the file system)
     rep.note('Not decided: "returns the tree of the current content"; the in-use clause of clean-up (atime based).')
